@@ -158,7 +158,16 @@ func (w *world) sensitiveUpdate(pred *cppki.TRC) *ucase {
 	switch w.r.Intn(7) {
 	case 0: // nothing else changes
 	case 1: // core / authoritative ASes change
-		t.CoreASes = append(t.CoreASes, addr.AS(0xff0000000200+uint64(w.r.Intn(9))))
+		for a := addr.AS(0xff0000000200 + uint64(w.r.Intn(9))); ; a++ {
+			dup := false
+			for _, c := range t.CoreASes {
+				dup = dup || c == a
+			}
+			if !dup {
+				t.CoreASes = append(t.CoreASes, a)
+				break
+			}
+		}
 		u.notes = append(u.notes, "core+")
 	case 2: // re-issue sensitive voters
 		for _, i := range idxOf(pred, cppki.Sensitive) {
@@ -172,7 +181,7 @@ func (w *world) sensitiveUpdate(pred *cppki.TRC) *ucase {
 	case 3: // add voters / roots of an AS not yet present
 		for a := 0; a < nAS; a++ {
 			for _, g := range []*[nAS][]*pc{&w.sens, &w.reg, &w.root} {
-				if !hasCert(t, g[a][0].Cert) && !hasCert(t, g[a][1].Cert) && w.r.Chance(25) {
+				if !hasCert(t, g[a][0].Cert) && !hasCert(t, g[a][1].Cert) && !hasCert(t, g[a][2].Cert) && w.r.Chance(25) {
 					w.insertCert(t, g[a][0].Cert)
 				}
 			}
